@@ -28,7 +28,7 @@ fn atom(ch: &mut Chooser, vectors: bool) -> Datum {
         6 | 7 => Datum::Sym(ch.pick_s(&["p", "q", "r", "s"]).to_string()),
         8 => Datum::Str(ch.pick_s(&["", "s", "two words"]).to_string()),
         9 | 10 => Datum::List(vec![], None),
-        _ => Datum::Vector((0..ch.below(3)).map(|_| Datum::Int(ch.range(0, 3) as i32)).collect()),
+        _ => Datum::Vector((0..ch.below(4)).map(|_| Datum::Int(ch.range(0, 3) as i32)).collect()),
     }
 }
 
@@ -283,17 +283,31 @@ pub fn gen_case(ch: &mut Chooser, which: &str) -> Case {
             let a = data(ch, 3, true);
             let b = if ch.chance(1, 2) {
                 a.clone()
-            } else if ch.chance(1, 2) {
-                // a near copy
-                match &a {
-                    Datum::List(items, tail) if !items.is_empty() => {
-                        let mut v = items.clone();
-                        let i = ch.below(v.len());
-                        v[i] = atom(ch, false);
-                        Datum::List(v, tail.clone())
+            } else if ch.chance(2, 3) {
+                // a near copy: one atom changed at a random position of the structure (any element of any vector or
+                // list, the first ones included)
+                fn change_one(ch: &mut Chooser, d: &Datum) -> Datum {
+                    match d {
+                        Datum::List(items, tail) if !items.is_empty() => {
+                            let mut v = items.clone();
+                            let i = ch.below(v.len());
+                            v[i] = if ch.chance(1, 2) { change_one(ch, &v[i].clone()) } else { atom(ch, false) };
+                            Datum::List(v, tail.clone())
+                        }
+                        Datum::Vector(items) if !items.is_empty() => {
+                            let mut v = items.clone();
+                            let i = ch.below(v.len());
+                            v[i] = match &v[i] {
+                                Datum::Int(k) => Datum::Int(k + 1),
+                                other => change_one(ch, other),
+                            };
+                            Datum::Vector(v)
+                        }
+                        Datum::Int(k) => Datum::Int(k + 1),
+                        _ => atom(ch, false),
                     }
-                    _ => data(ch, 3, true),
                 }
+                change_one(ch, &a)
             } else {
                 data(ch, 3, true)
             };
